@@ -11,7 +11,7 @@ THEOREMS = ["Sb.C13.firstTouch_none", "Sb.C13.firstTouch_some", "Sb.C13.first_cr
 RULE = ("trajectory files with 1..7 segments whose altitude encodings are constant, linear or well-conditioned cubic (5% rule), arbitrary "
         "x/y encodings incl. degree 7, scales {1, 10, 127}; climbs, hovers, descents before the climb, plateaus; takeoff ascents h chosen "
         "from: 0, the altitude gain at every segment boundary exactly (crossing exactly at a boundary / plateau exactly at the target), "
-        "fractions inside every segment's gain, a hair above an initial hover (1..3 float steps, up to 1e-3 mm), the maximum gain exactly and just beyond (never reached); speeds {500.5, 1000, 2000}, "
+        "fractions inside every segment's gain, a hair above an initial hover (1..3 float steps, up to 1e-3 mm), the maximum gain exactly and just beyond (never reached), h = 0 on a first cubic segment that returns exactly to the initial altitude; speeds {500.5, 1000, 2000}, "
         "accelerations {1, 1000, 4000, +inf}; invalid parameters {negative, zero, +-inf, NaN} in each position. The proposal function "
         "and the one-pass statistics interface are both called, through both loading routes. Non-trivial: at least one segment.")
 ASSUMPTIONS = ["'E' is judged through the altitude it yields and through 'not robustly reached earlier', decided exactly (certified root oracle) on the exact Bezier "
@@ -106,8 +106,44 @@ def generate(rng, tier):
             h = (top - z0) * scale * frac
             if h >= 0:
                 qs.append(f"K{fb(b2f(f2b(h)))},{fb(1000.0)},{fb(1000.0)}")
+        # a takeoff altitude just below an interior hump of the segment: the curve crosses it twice, a moderate
+        # distance apart - E is the first crossing, not the top of the hump between the two
+        c1, c2, c3 = 3 * (p[0] - z0), 3 * (z0 - 2 * p[0] + p[1]), p[2] - 3 * p[1] + 3 * p[0] - z0
+        disc = 4 * c2 * c2 - 12 * c3 * c1
+        if c3 != 0 and disc > 0:
+            for sgn in (1, -1):
+                u = (-2 * c2 + sgn * math.sqrt(disc)) / (6 * c3)
+                curv = 2 * c2 + 6 * c3 * u
+                if 0.25 < u < 0.75 and curv < 0:
+                    pv = z0 + c1 * u + c2 * u * u + c3 * u ** 3
+                    w = rng.choice([0.12, 0.15, 0.2])
+                    h = (pv - 0.5 * abs(curv) * w * w - z0) * scale
+                    if h > 0:
+                        qs.append(f"K{fb(b2f(f2b(h)))},{fb(1000.0)},{fb(1000.0)}")
         if qs:
             out.append((f"stats {hx(skyb(blk, rng))} " + " ".join(qs), True))
+    # a first cubic segment that comes back exactly to the initial altitude at its end (hop, dip, wiggle): with h = 0 the
+    # altitude is reached at E = 0, not at the end of the segment and not at an interior crossing; with a small h > 0
+    # the first crossing is inside the segment
+    made = 0
+    while made < (400 if tier == "thorough" else 70):
+        z0 = rng.choice([0, 0, 1000, -500])
+        a = z0 + rng.randint(-5000, 5000)
+        b = z0 + rng.randint(-5000, 5000)
+        lead, quad, lin = 3 * (a - b), 3 * (z0 - 2 * a + b), 3 * (a - z0)
+        if abs(lead) < 0.05 * max(abs(quad), abs(lin)) or abs(lead) < 30:
+            continue
+        scale = rng.choice([1, 10])
+        if min(z0, a, b) < -32000 or max(z0, a, b) > 32000:
+            continue
+        made += 1
+        blk = build(scale, (0, 0, z0, 0), [(rng.choice([1000, 4000]), [], [], [a, b, z0], []), (2000, [], [], [z0 + 3000], [])])
+        qs = [f"K{fb(0.0)},{fb(1000.0)},{fb(rng.choice([1000.0, math.inf]))}"]
+        top = max(((1 - u) ** 3 * z0 + 3 * (1 - u) ** 2 * u * a + 3 * (1 - u) * u * u * b + u ** 3 * z0) for u in [i / 40 for i in range(41)])
+        if top > z0:
+            for frac in (0.001, 0.5):
+                qs.append(f"K{fb(b2f(f2b((top - z0) * scale * frac)))},{fb(1000.0)},{fb(1000.0)}")
+        out.append((f"stats {hx(skyb(blk, rng))} " + " ".join(qs), True))
     # takeoff altitudes a hair above a hover (one to a few float steps, up to 1e-3 mm): constant-altitude segments are
     # compared exactly, so the hover must not count as reaching the altitude; the crossing is in the climb behind it
     for i in range(60 if tier == "thorough" else 16):
